@@ -1,0 +1,47 @@
+//go:build verif
+
+// Contracts for the deductive verifier in /verif (govc). Comment-only: this file adds no code.
+package integrationdiagram
+
+// ---- C14: the dependency list holds exactly calls among the selected applications
+
+// A caller is recorded only if it is not excluded and the call's target is a seed application.
+//@ func (*IntsBuilder).MyCallers
+//@   requires b.M != nil && t != nil && b.Deps != nil && b.Deps != b.Excludes && b.Deps != b.SeedAppsMap
+//@   assert @call:integrationdiagram.(*IntsBuilder).AddCall [caller-not-excluded-target-is-seed] !in(sourceApp, b.Excludes) && in(targetApp, b.SeedAppsMap) && arg1 == sourceApp && arg2 == epname && arg3 == t
+//@   assert @store:F.integrationdiagram.IntsBuilder.FinalApps [only-unexcluded-callers-join] !in(sourceApp, b.Excludes) && in(targetApp, b.SeedAppsMap)
+
+// A seed application's call is recorded only if the target is not excluded.
+//@ func (*IntsBuilder).ProcessExcludeAndPassthrough
+//@   requires b.M != nil && t != nil && b.Deps != nil && b.Deps != b.Excludes
+//@   assert @call:integrationdiagram.(*IntsBuilder).AddCall [target-not-excluded] !in(targetApp, b.Excludes) && arg1 == sourceApp && arg2 == epname && arg3 == t
+//@   assert @store:F.integrationdiagram.IntsBuilder.FinalApps [only-unexcluded-targets-join] !in(targetApp, b.Excludes)
+
+// Calls between already selected applications are recorded only if the target is selected.
+//@ func (*IntsBuilder).IndirectCalls
+//@   requires b.M != nil && t != nil && b.Deps != nil
+//@   assert @call:integrationdiagram.(*IntsBuilder).AddCall [target-is-selected] in(targetApp, b.FinalAppsMap) && arg1 == sourceApp && arg2 == epname && arg3 == t
+
+// The pass-through walk recurses through ProcessCalls / ProcessExcludeAndPassthrough without a measure.
+//@ func (*IntsBuilder).WalkPassthrough
+//@   structure terminates
+
+// Append-or-nothing: a dependency is appended exactly when its key is new, it is the dependency of exactly this
+// call statement, and the key set and the list stay in step.
+//@ func (*IntsBuilder).AddCall
+//@   requires b.Deps != nil && t != nil
+//@   modifies b.DepsOut, elems(b.DepsOut), mapof(b.Deps)
+//@   assert @mapupdate:syslutil.StrSet [key-is-new] !in(mapkey, maptarget)
+//@   assert @store:F.integrationdiagram.IntsBuilder.DepsOut [one-dependency-appended] len(stored) == len(target.DepsOut) + 1 && in(k, b.Deps) && stored[len(stored)-1].Statement == t && stored[len(stored)-1].Self.Name == appname && stored[len(stored)-1].Self.Endpoint == epname && stored[len(stored)-1].Target.Name == targetApp
+
+// The traversal hands the handler call statements only, with the owner it was given, and descends into every
+// container kind (if/else, loop, loop-n, for-each, group) with the same owner and handler.
+//@ func ProcessCalls
+//@   maypanic
+//@   ghostclear @call:sysl.(*Statement).GetStmt descended
+//@   ghostset @call:integrationdiagram.ProcessCalls descended
+//@   ghostset @call:dynamic descended
+//@   assert @call:dynamic [handler-gets-call-statements-with-owner] arg0 == appname && arg1 == epname && arg2 == stmt && tagof(stmt.Stmt) == typeid("*sysl.Statement_Call")
+//@   assert @call:integrationdiagram.ProcessCalls [same-owner-and-handler] arg0 == appname && arg1 == epname
+//@   mark @after:sysl.(*Statement).GetStmt#1 kind
+//@   loop 0 step [every-call-and-container-visited] tagof(at("kind", callresult)) == typeid("*sysl.Statement_Call") || tagof(at("kind", callresult)) == typeid("*sysl.Statement_Cond") || tagof(at("kind", callresult)) == typeid("*sysl.Statement_Loop") || tagof(at("kind", callresult)) == typeid("*sysl.Statement_LoopN") || tagof(at("kind", callresult)) == typeid("*sysl.Statement_Foreach") || tagof(at("kind", callresult)) == typeid("*sysl.Statement_Group") ==> ghost("descended")
